@@ -173,6 +173,16 @@ func init() {
 			}
 			defer func() { c17Shared = nil }()
 		}
+		if c17Shared != nil {
+			// warm-up through the shared model: an alignment of the same shape and ANOTHER amino-acid composition (state kept
+			// from an earlier alignment - frequencies, eigen data, exponentials, site selections - must not reach the next)
+			sub := strings.NewReplacer("A", "W", "L", "C", "E", "M", "G", "H", "S", "Y", "V", "F", "K", "Q", "T", "N")
+			warm := make([]Row, n)
+			for i, r := range rows {
+				warm[i] = Row{r.Name, sub.Replace(r.Seq)}
+			}
+			c17Call(idx, modelfreqs, gamma, alpha, rmgaps, w, warm)
+		}
 		base, stage := c17Call(idx, modelfreqs, gamma, alpha, rmgaps, w, rows)
 		if stage != "" {
 			return "err " + stage
